@@ -197,10 +197,12 @@ class Program:
             return None
         return r[0]
 
-    def inlined(self, path):
-        """body with small private single-caller helpers expanded in place (sa/inline.py); the plain body when there are none"""
+    def inlined(self, path, keep=None, private_only=False, nested=False):
+        """body with small single-caller helpers expanded in place (sa/inline.py); the plain body when there are none.
+        keep: regex of callees that must stay calls; private_only: never expand `pub` items; nested: a helper called only from
+        helpers that were expanded into this body is expanded too"""
         from . import inline
-        return inline.inlined(self, path)
+        return inline.inlined(self, path, keep=keep, private_only=private_only, nested=nested)
 
     def find(self, regex):
         rx = re.compile(regex)
